@@ -200,4 +200,13 @@ ADDENDA_END = {
 }
 for _k, _t in ADDENDA_END.items():
     TEXTS[_k]['level'] += ' ' + _t
+ADDENDA_W9 = {
+    'C02': "TAB24: the nesting bound of the parser is the documented limit to the level.",
+    'C11': "TAB24: the depth bound of the duplicator is the documented limit to the level.",
+    'C12': "SHP5: the comparison evaluated against the definition of equality on short trees, ownership flags included (bounded).",
+    'C15': "IDX1: index tokens converted by the C library begin with a digit; FND1: the search for a node gives up only because of the tree.",
+    'C17': "ORD2: no position in a member list is kept across its sorting.",
+}
+for _k, _t in ADDENDA_W9.items():
+    TEXTS[_k]['level'] += ' ' + _t
 NOT_APPLICABLE = {}
